@@ -136,6 +136,9 @@ type sCase struct {
 	Opts  Opts   `json:"options"`
 	Entry string `json:"entry"`
 	Host  string `json:"host,omitempty"`
+	// Toggle: the request was made directly after the same request with NoCrossPlatform flipped (and, before that,
+	// after the request itself), on the same database object (C04)
+	Toggle bool `json:"directly_after_the_same_request_with_no_cross_platform_flipped,omitempty"`
 }
 
 func (s sCase) query() string {
